@@ -1,6 +1,8 @@
 (* C19 - No resource growth over repeated cycles and nothing left behind (bookkeeping part).
-   Bytes are not modelled: the harness observes them (live tracked callables after every op, teardown counts). *)
+   Bytes are not modelled: the harness observes them (live tracked callables after every op, teardown counts; on the property layer the
+   bytes held by the real library over repeated state-restoring cycles, compared with the model's footprint PropCheck.footprint). *)
 From KDB Require Import Util GenIdx GenIdxProofs SigDefs SigInv SigTheorems SigEmit SigDisc.
+From KDB Require PropDefs PropLink PropLinkTheorems PropCheck PropFn PropFootprint.
 
 (* a table is exactly as large as its live entries plus its reusable positions *)
 Theorem C19_table_size :
@@ -50,3 +52,31 @@ Example C19_example :
                                   OConnect 0 0 102 1 [] 0; ODiscH 0] in
   option_map (fun m => g_size (i_conns m)) (get_impl w 0) = Some 1.
 Proof. vm_compute. reflexivity. Qed.
+
+(* ---- property layer ---- *)
+(* nothing accumulates: after ANY legal history (creations, bindings in both modes, rebinding, reset, moves, destructions in any order,
+   acting observers) every connection the library made on its own behalf - a binding node subscribed to a signal of a property - is owned
+   by a leaf of a LIVE binding through a handle that leaf holds; there is no connection that nobody owns *)
+Theorem C19_property_layer_no_unowned_connection :
+  forall fn rtl fuel ops t pos ser b l,
+    PropLinkTheorems.run_ok fn rtl fuel PropDefs.world0 ops ->
+    PropLink.slot_at (PropDefs.run fn rtl fuel ops) t pos ser (PropDefs.SNode b l) ->
+    exists x lf, PropDefs.get_bind (PropDefs.run fn rtl fuel ops) b = Some x /\ In lf (PropLink.leaves (PropDefs.b_root x)) /\
+                 PropLink.lf_id lf = l /\
+                 In {| PropDefs.h_table := t; PropDefs.h_pos := pos; PropDefs.h_serial := ser |} (PropLink.lf_handles lf).
+Proof. exact PropFootprint.reachable_no_unowned_subscription. Qed.
+Print Assumptions C19_property_layer_no_unowned_connection.
+
+(* non-vacuity of the tie: moving the input of a binding away and back and destroying the temporary is a state-restoring cycle of the
+   model - its footprint (occupied slots, live tables, live bindings, properties, registry entries, held bindings, evaluators) after
+   one repetition is the footprint after four; this is the "heap 0" the correspondence check expects from the real library *)
+Example C19_property_cycle_example :
+  let ops0 := [PropDefs.PNew 0 1%Z; PropDefs.PNew 1 2%Z;
+               PropDefs.PBind 2 (PropDefs.EOp2 0 (PropDefs.EProp 0) (PropDefs.EProp 1)) PropDefs.MImmediate;
+               PropDefs.PObserve 0 PropDefs.KChanged 100 0 None] in
+  let cyc := [PropDefs.PMoveCtor 0 9; PropDefs.PMoveAssign 0 9; PropDefs.PDel 9] in
+  PropLinkTheorems.run_okb PropFn.fn_std true 10 PropDefs.world0 (ops0 ++ cyc ++ cyc ++ cyc ++ cyc) = true /\
+  PropCheck.footprint (PropDefs.run PropFn.fn_std true 10 (ops0 ++ cyc)) =
+  PropCheck.footprint (PropDefs.run PropFn.fn_std true 10 (ops0 ++ cyc ++ cyc ++ cyc ++ cyc)) /\
+  PropCheck.footprint (PropDefs.run PropFn.fn_std true 10 (ops0 ++ cyc)) = [7; 6; 1; 3; 1; 0; 0].
+Proof. vm_compute. repeat split; reflexivity. Qed.
